@@ -112,7 +112,7 @@ Proof.
     destruct (send_ra c pf rd (dm, di) j1) as [l| | |] eqn:E; cbn [frames_of] in Hin; try destruct Hin.
     assert (Hl : l = [fr] \/ l = []).
     { unfold send_ra in E. destruct pf; [injection E as <-; auto|]. destruct (cat_opts _); [|injection E as <-; auto].
-      unfold icmp6_send_packet in E. destruct (ip6_append_payload _ _ _ _); [|discriminate].
+      unfold icmp6_send_packet in E. destruct (ip6_append_payload _ _ _ _); [|injection E as <-; auto].
       destruct (Nat.ltb _ 4); [discriminate|]. injection E as <-. destruct Hin as [<-|[]]. auto. }
     destruct Hl as [->| ->]; [|destruct Hin]. exact (ra_wf c pf rd dm di j1 fr C1 C3 A B D F HJ1 E).
   - destruct Hev as (A & B & D & F & G & K). one_frame (arp_spoofer_wf c op dst sm si tm ti j1 C1 A B D F G K HJ1').
